@@ -59,6 +59,10 @@ CHECKS = {
          "crash-point enumeration: the controller runs in a helper process that parks itself at a chosen verif gate (host or container named point, callback, tracer step) and is SIGKILLed exactly there; the container init and every process of the program's tree are then watched",
          "Container: operation in {ping, open, reset, execve with sync before / after exec of a process tree with a signal-ignoring child, a double-forked daemon, a grandchild and a HUP/TERM-ignoring child} x crash point in {idle after build, host held at send-pre / send-post / recv, inside the callback, send-pre(ok), select, while the program runs, container held at dispatch / started / select / reply withheld, init busy with a long init command during build}. Tracer: the tracing process is SIGKILLed at every tracer step (each Debug call, incl. before PTRACE_SETOPTIONS) of a run of the same kind of tree. Oracle: init and every nonce-carrying process are gone within 10 s with no further action.",
          "A launcher child that has not exec'ed the target is not counted as an untrusted process. Uniformly random kill instants are sampling and are replaced by the gate instants."),
+ "C17": ("exploration",
+         "schedule enumeration at phase granularity: concurrent runs are cut into gated phases (launch up to the callback; callback released until the program reports; program told to end until the verdict) and every merge of the phase sequences is executed on the real runners; differential oracle against the same run alone",
+         "Pairs over {ptrace, namespace runner, container A, container B} (ptrace+ptrace, ptrace+namespace, ptrace+container, namespace+namespace, namespace+container, container A+container B) x all 20 merges of 3+3 phases; each run has its own stdin pipe, private files, exit code and output file, and its program reports its whole descriptor table, which must consist only of the run's own files; verdict, exit value and table must equal those of the same run alone (taken in the same execution). Plus calls queued on one environment while an execve on it is in flight: execve, ping, open, reset, and a ping queued for longer than the ping timeout.",
+         "Schedules are exhaustive at phase granularity only; thread-level interleavings inside the fork...exec window are not controlled (the fork lock is observed through its effect on descriptor tables). 16-way free-running stress is sampling and is not claimed."),
  "C18": ("exploration",
          "bounded-exhaustive enumeration of entry sets x query paths and of counter call histories on the exported filehandler API, against an independent definition of coverage",
          "Every entry set of size <=2 (thorough: <=3) over {exact, d/, d/*} x all paths to depth 3 (thorough: 4) is queried with every path incl. '/' and the empty path; every (Writable,Readable,Statable,SoftBan) 4-tuple of sets of size <=1 at depth 2 is checked through Handler.CheckRead/Write/Stat; a real symlink forest covers the raw-or-real clause; every counter table of <=2 names x counts {-1..3} is driven with every call sequence up to length 6 (7). Complete enumeration, no sampling.",
